@@ -331,7 +331,8 @@ pub fn fault(a: &Args, rep: &mut Report) {
             continue;
         }
         if !built {
-            std::mem::forget(s);
+            // consistent map, just not the wanted state: release it normally
+            drop(s);
             continue;
         }
         let ops = fault_ops(&mut hr, &s, &chains, &raw_chains);
@@ -369,7 +370,13 @@ pub fn fault(a: &Args, rep: &mut Report) {
                 cnt.go(p.clone());
             }
             let counts = cnt.mon.count_callbacks(&op);
-            std::mem::forget(cnt);
+            if counts.is_some() {
+                // the op completed without a fault: the map is consistent, release it normally
+                // (a fault run leaks nothing either; leaking every case would exhaust memory)
+                drop(cnt);
+            } else {
+                std::mem::forget(cnt);
+            }
             let counts = match counts {
                 Some(c) => c,
                 None => continue,
@@ -460,7 +467,9 @@ pub fn fault(a: &Args, rep: &mut Report) {
                     let map = std::mem::replace(&mut f.mon.map, griddle::HashMap::with_hasher(cfg.bh));
                     let r = catch(move || drop(map));
                     let dv = take_violations();
-                    std::mem::forget(f);
+                    // what is left of the session holds a fresh empty map: safe to release
+                    drop(f);
+                    let _ = take_violations();
                     if let Err(p) = r {
                         rep.direct_violation("C07", &tag, &format!("dropping the map panicked after a caught panic in {kind:?} #{idx} of {}: {p}", op.encode()), &[]);
                     } else if let Some((_, m)) = dv.into_iter().next() {
